@@ -505,10 +505,17 @@ func genQueueProgram(rng *rand.Rand, family string, mutex bool) (ths []qthread, 
 			}
 			ops = append(ops, block(skip, k))
 		case 2: // consume a little, then keep producing: an array-backed buffer must wrap and grow without reordering
+			if rng.Intn(2) == 0 {
+				// start below a power-of-two capacity, consume, then cross 256 / 512 / 1024 with the live region not at index 0
+				if k0 := []int{60, 100, 200, 250}[rng.Intn(4)]; k0 < len(ops) {
+					ops = ops[:k0]
+				}
+				n = len(ops)
+			}
 			for i := []int{1, 3, n / 2}[rng.Intn(3)]; i > 0; i-- {
 				ops = append(ops, qop{kind: "poll"})
 			}
-			for i := []int{2, 40, 300}[rng.Intn(3)]; i > 0; i-- {
+			for i := []int{2, 40, 300, 500, 1000}[rng.Intn(5)]; i > 0; i-- {
 				ops = append(ops, qop{kind: "offer", v: fresh()})
 			}
 		default: // a long random history
@@ -668,7 +675,14 @@ func (r *qrun) monitorLin() string {
 			}})
 		}
 	}
-	if len(ops) > 26 && !r.sequential {
+	if r.sequential {
+		// the operations do not overlap: the history is decided by one linear replay, whatever its length
+		if ok, why := sequentialWitness(ops); !ok {
+			return "C01 history has no legal sequential FIFO witness: " + why
+		}
+		return ""
+	}
+	if len(ops) > 26 {
 		return ""
 	}
 	if ok, _ := linearizable(ops, ""); !ok {
@@ -1009,10 +1023,15 @@ func runQueue(fs *flag.FlagSet, args []string) {
 				}
 			}
 		}
-		for i, m := range msgs {
-			if *impl == "mutex" {
-				m = strings.Replace(m, "C01 ", "C19 ", 1)
+		if *impl == "mutex" {
+			// the mutex queue is covered by C01 (both queues are linearizable FIFO queues) and by C19 (its whole API): report under both
+			for _, m := range append([]string{}, msgs...) {
+				if strings.HasPrefix(m, "C01 ") {
+					msgs = append(msgs, strings.Replace(m, "C01 ", "C19 ", 1))
+				}
 			}
+		}
+		for i, m := range msgs {
 			if i > 0 {
 				monf(run, "FAIL %s", m)
 			} else {
